@@ -148,6 +148,14 @@ def run(ck, F, E):
                 se = strip_expr(fpb.expr(rv["ops"][names.index("string_manager")]))
                 if pe == ("param", 0) and se == ("param", 1):
                     ok = True
+        if not ok:
+            # default-then-assign: `let mut i = Interpreter::default(); i.program = program; i.string_manager = string_manager; i`
+            got_ = {}
+            for b, i, pl, rv, sp in fpb.assigns():
+                fs = [p for p in pl["proj"] if p["k"] == "field"]
+                if len(fs) == 1 and fs[0].get("adt", "").endswith("interpreter::Interpreter") and fs[0].get("name") in ("program", "string_manager"):
+                    got_[fs[0]["name"]] = strip_expr(fpb.rv_expr(rv))
+            ok = got_.get("program") == ("param", 0) and got_.get("string_manager") == ("param", 1)
         ck.require(ok, "C15:PIPE:from_program", "same storing pipeline", "from_program installs exactly the given program and strings",
                    "Interpreter::from_program no longer installs the given program", fpb.span)
 
